@@ -53,12 +53,25 @@ def Gated(a="d", b="d", c="d"):
     return r
 
 
+@as_function_node("o", validate_output_labels=False)
+def F41(a="d", b="d", c="d"):
+    """a node that legitimately has nothing to report for some input: NOT_DATA when `a` is "c0" """
+    from pyiron_workflow.channels import NOT_DATA
+
+    if nodes.FAIL.get(41):
+        raise nodes.Boom("f41")
+    r = NOT_DATA if a == "c0" else ("f41", a, b, c)
+    return r
+
+
 def make_node(spec, label):
     t = spec["t"]
     if t == "fn":
         a, b, c = spec["ins"]
         if spec["fid"] == 40:
             return Gated(label=label, a=a, b=b, c=c)
+        if spec["fid"] == 41:
+            return F41(label=label, a=a, b=b, c=c)
         return nodes.term_node(spec["fid"], label=label, a=a, b=b, c=c)
     if t == "macro":
         SPEC_QUEUE.insert(0, spec["level"])
